@@ -85,7 +85,7 @@ impl RawFetch {
             final(inflights).failed@ == old(inflights).failed@ + 1, final(inflights).fallbacks == old(inflights).fallbacks,
     { unimplemented!() }
 
-//@region foyer-memory/src/raw.rs :: impl~Future for RawFetch<E, S, I, C>/fn poll name=poll_fetch_optional start=/RawFetchState::FetchOptional \{[^}]*\} =>/ arm=1 sub=@\*this\.state@this.state@ sub=@this\.key\.as_ref\(\)@this.key.as_ref()@ sub=@handle_target\(target, this\.key, this\.cache,@handle_target(target, &mut this.key, &mut this.cache,@ sub=@required_fetch_builder, this\.ctx, \*this\.id, \*this\.hash, this\.key\.as_ref\(\)\.unwrap\(\), &this\.inflights,@required_fetch_builder, &mut this.ctx, this.id, this.hash, this.key.as_ref().unwrap(), &mut this.inflights,@ subopt=@handle_error\(e, \*this\.id, \*this\.hash, this\.key\.as_ref\(\)\.unwrap\(\), this\.inflights\)@handle_error(e, this.id, this.hash, this.key.as_ref().unwrap(), &mut this.inflights)@
+//@region foyer-memory/src/raw.rs :: impl~Future for RawFetch<E, S, I, C>/fn poll name=poll_fetch_optional start=/(?m)^\s*RawFetchState::FetchOptional \{[^}]*\} =>/ arm=1 sub=@\*this\.state@this.state@ sub=@this\.key\.as_ref\(\)@this.key.as_ref()@ sub=@handle_target\(target, this\.key, this\.cache,@handle_target(target, &mut this.key, &mut this.cache,@ sub=@required_fetch_builder, this\.ctx, \*this\.id, \*this\.hash, this\.key\.as_ref\(\)\.unwrap\(\), &this\.inflights,@required_fetch_builder, &mut this.ctx, this.id, this.hash, this.key.as_ref().unwrap(), &mut this.inflights,@ subopt=@handle_error\(e, \*this\.id, \*this\.hash, this\.key\.as_ref\(\)\.unwrap\(\), this\.inflights\)@handle_error(e, this.id, this.hash, this.key.as_ref().unwrap(), &mut this.inflights)@
 //@head
     #[verifier::exec_allows_no_decreases_clause]
     fn poll_fetch_optional(this: &mut ThisT, optional_fetch: &mut OptFutT, required_fetch_builder: &mut Option<BuilderT>, cx: &mut Cx) -> (r: Poll<()>)
@@ -108,7 +108,7 @@ impl RawFetch {
         Poll::Pending
 //@end
 
-//@region foyer-memory/src/raw.rs :: impl~Future for RawFetch<E, S, I, C>/fn poll name=poll_fetch_required start=/RawFetchState::FetchRequired \{[^}]*\} =>/ arm=1 sub=@\*this\.state@this.state@ sub=@handle_target\(target, this\.key, this\.cache,@handle_target(target, &mut this.key, &mut this.cache,@ sub=@handle_error\(e, \*this\.id, \*this\.hash, this\.key\.as_ref\(\)\.unwrap\(\), this\.inflights\)@handle_error(e, this.id, this.hash, this.key.as_ref().unwrap(), &mut this.inflights)@
+//@region foyer-memory/src/raw.rs :: impl~Future for RawFetch<E, S, I, C>/fn poll name=poll_fetch_required start=/(?m)^\s*RawFetchState::FetchRequired \{[^}]*\} =>/ arm=1 sub=@\*this\.state@this.state@ sub=@handle_target\(target, this\.key, this\.cache,@handle_target(target, &mut this.key, &mut this.cache,@ sub=@handle_error\(e, \*this\.id, \*this\.hash, this\.key\.as_ref\(\)\.unwrap\(\), this\.inflights\)@handle_error(e, this.id, this.hash, this.key.as_ref().unwrap(), &mut this.inflights)@
 //@head
     #[verifier::exec_allows_no_decreases_clause]
     fn poll_fetch_required(this: &mut ThisT, required_fetch: &mut ReqFutT, cx: &mut Cx) -> (r: Poll<()>)
